@@ -351,6 +351,7 @@ K('C08', 'K2.registration_receipt', 'teos', _g + 'c09_k5_register_new', 'registr
 K('C08', 'K2.renewal_receipt', 'teos', _g + 'c09_k5_renew', 'renewal receipt fields == UserInfo in memory == database row')
 K('C08', 'P2.add_new', 'teos', _w + 'c08_add_new', 'accepted new appointment: receipt = (user signature, tower height), tower signs exactly those bytes, returned slots/expiry are the persisted ones, the stored row is the accepted version')
 K('C08', 'P2.add_update', 'teos', _w + 'c08_add_update', 'accepted update: same, the stored row is replaced by the accepted version (blob, delay, signature, start block)')
+K('C08', 'P2.add_update_same_blob', 'teos', _w + 'c08_add_update_same_blob', 'add_appointment replacing a stored appointment that has the very same blob but an older delay, signature and start block: the stored row is the version the receipt was issued for (delay, signature, start block), no slot changes')
 K('C08', 'P3.refused_no_receipt', 'teos', _w + 'c07_add_no_slots', 'no receipt (and no write) without slots', 'thorough')
 
 K('C07', 'P2.add_two_slots', 'teos', _w + 'c07_add_two_slots', 'add_appointment with a 2049-byte blob charges 2 slots: returned == memory == database', 'thorough')
@@ -445,6 +446,8 @@ K('C11', 'K3.send_retry_waits', 'teos', _ca + 'c12_k1_send_through_outage', 'a s
 M('C05', 'M6.mirror_reload', 'mirror_reload', 'start-up re-establishes the mirror invariant M5 assumes: DBM::load_towers fills the in-memory pending / invalid set of each tower from the table the corresponding recorder inserts into (status constant -> table constant -> with_appointments argument -> TowerSummary field, read from the MIR)')
 M('C13', 'M6.retrier_end_state', 'retrier_end_state', 'after the back-off strategy gave up, every feasible path of the task spawned by Retrier::start (symbolic RetryError variant and permanent flag, tied to is_permanent\'s own MIR) leaves the retrier Failed or Idle, never Running: it can idle, be restarted automatically or retried manually, and the reported status is truthful')
 M('C02', 'M1.per_appointment_decrypt', 'per_appointment_decrypt', 'Watcher::handle_breaches: every appointment under a breached locator is decrypted from its own blob in its own loop iteration before anything is handed to the Responder (no penalty is broadcast for an appointment whose own blob does not yield it)')
+M('C13', 'M7.start_status', 'retrier_start_status', 'Retrier::start flags the tower TemporaryUnreachable on every path on which its status is not a subscription error, and marks the retrier Running, before the task is spawned: while a round runs the tower is never shown Unreachable (new appointments keep reaching the retrier) and the reported status is truthful')
+M('C14', 'M5.registration_extends', 'registration_extends', 'symbolic execution of WTClient::add_update_tower (32-bit bit-vectors for the receipt\'s and the known expiry / slots, booleans for every other test): a registration for a tower that is already known is stored only if its expiry AND its slots strictly exceed the known ones, whatever the tower\'s status')
 M('C08', 'M1.single_height_read', 'single_height_read', 'Watcher::add_appointment reads the tower height once per accepted request: the start block in the receipt and the one stored with the appointment are the same number whatever block events interleave')
 M('C06', 'M2.uuid_derivation', 'uuid_derivation', 'UUID::new hashes locator || full serialised user key (PublicKey::serialize): distinct users never share a uuid for the same locator')
 K('C11', 'K1.handle_reorged_panic_free', 'teos', _r + 'c04_p3_handle_reorged', 'handle_reorged_txs does not panic for any node reply to the dispute / penalty re-submission (incl. already-in-chain)')
